@@ -55,11 +55,12 @@ type prattTables struct {
 	leds     map[string][]types.Object
 	nuds     map[string][]types.Object
 	funcDecl map[types.Object]*ast.FuncDecl
+	bpNames  map[string]bool // parser fields/methods that yield the binding power of a token type
 }
 
 func runPRATT(c *Ctx, r *Result, rule string) {
 	pkg := c.W.Lib["jparse"]
-	pt := &prattTables{pkg: pkg, tokName: map[string]string{}, lexTok: map[string]string{}, tokLex: map[string]string{}, rowOf: map[string]int{}, funcDecl: map[types.Object]*ast.FuncDecl{}}
+	pt := &prattTables{pkg: pkg, tokName: map[string]string{}, lexTok: map[string]string{}, tokLex: map[string]string{}, rowOf: map[string]int{}, funcDecl: map[types.Object]*ast.FuncDecl{}, bpNames: map[string]bool{}}
 	for nt, e := range enumTypes(pkg) {
 		if nt.Obj().Name() == "tokenType" {
 			for _, k := range e.Consts {
@@ -457,48 +458,101 @@ func (pt *prattTables) checkInitBindingPowers(c *Ctx, r *Result, rule string) {
 		}
 		r.Add(o2)
 	}
-	// the parser's lookup fields are only ever set to the package-level lookup functions
-	for _, fld := range []string{"lookupBp", "lookupLed", "lookupNud"} {
-		o3 := Obligation{Rule: rule, Key: "parser." + fld + ":single-binding", Fn: "jparse.newParser", Pos: "jparse/jparse.go", Nontrivial: true}
-		var vals []string
-		for _, fn := range c.W.FuncsOf(PkgSet{pt.pkg.Types: true}) {
-			for _, ins := range instrsIn(fn) {
-				st, ok := ins.(*ssa.Store)
-				if !ok {
-					continue
-				}
-				fa, ok := st.Addr.(*ssa.FieldAddr)
-				if !ok || !isNamed(fa.X.Type(), "jparse", "parser") {
-					continue
-				}
-				stt := fa.X.Type().Underlying().(*types.Pointer).Elem().Underlying().(*types.Struct)
-				if stt.Field(fa.Field).Name() != fld {
-					continue
-				}
-				if fv, isF := st.Val.(*ssa.Function); isF {
-					vals = append(vals, fv.Name())
-				} else {
-					vals = append(vals, "<dynamic>")
+	// the parser's lookup fields are only ever set to the package-level lookup functions: each
+	// func-typed field of the parser is stored once, with a package-level function that reads
+	// one of the three tables, and each table is served by exactly one field
+	roleOfFn := func(fv *ssa.Function) string {
+		role := ""
+		for _, ins := range instrsIn(fv) {
+			if ia, ok := ins.(*ssa.IndexAddr); ok {
+				if g, ok := ia.X.(*ssa.Global); ok {
+					switch g.Name() {
+					case "bps", "nuds", "leds":
+						role = g.Name()
+					}
 				}
 			}
 		}
-		if len(vals) == 1 && vals[0] == fld {
-			o3.Verdict, o3.Reason = Discharged, "parser."+fld+" is assigned once, the package-level "+fld
-		} else {
-			o3.Verdict, o3.Reason = Finding, fmt.Sprintf("parser.%s is assigned %v: the tables the parser consults are not the ones extracted here", fld, vals)
+		return role
+	}
+	stores := map[string][]string{} // field name -> what is stored
+	for _, fn := range c.W.FuncsOf(PkgSet{pt.pkg.Types: true}) {
+		for _, ins := range instrsIn(fn) {
+			st, ok := ins.(*ssa.Store)
+			if !ok {
+				continue
+			}
+			fa, ok := st.Addr.(*ssa.FieldAddr)
+			if !ok || !isNamed(fa.X.Type(), "jparse", "parser") {
+				continue
+			}
+			stt := fa.X.Type().Underlying().(*types.Pointer).Elem().Underlying().(*types.Struct)
+			if _, isFunc := stt.Field(fa.Field).Type().Underlying().(*types.Signature); !isFunc {
+				continue
+			}
+			name := stt.Field(fa.Field).Name()
+			if fv, isF := st.Val.(*ssa.Function); isF {
+				stores[name] = append(stores[name], roleOfFn(fv))
+			} else {
+				stores[name] = append(stores[name], "<dynamic>")
+			}
+		}
+	}
+	served := map[string][]string{}
+	for name, vals := range stores {
+		for _, v := range vals {
+			served[v] = append(served[v], name)
+		}
+	}
+	for _, tbl := range []string{"bps", "leds", "nuds"} {
+		fldKey := map[string]string{"bps": "lookupBp", "leds": "lookupLed", "nuds": "lookupNud"}[tbl]
+		o3 := Obligation{Rule: rule, Key: "parser." + fldKey + ":single-binding", Fn: "jparse.newParser", Pos: "jparse/jparse.go", Nontrivial: true}
+		flds := served[tbl]
+		switch {
+		case len(flds) == 1 && len(stores[flds[0]]) == 1 && len(served["<dynamic>"]) == 0 && len(served[""]) == 0:
+			o3.Verdict, o3.Reason = Discharged, "parser."+flds[0]+" is assigned once, a package-level function that reads the "+tbl+" table; no lookup field is assigned anything else"
+			if tbl == "bps" {
+				pt.bpNames[flds[0]] = true
+			}
+		default:
+			o3.Verdict, o3.Reason = Finding, fmt.Sprintf("the parser's lookup of the %s table goes through %v (stores: %v): the tables the parser consults are not the ones extracted here", tbl, flds, stores)
 		}
 		r.Add(o3)
+	}
+	// methods of the parser that only forward to the binding-power field (p.bp)
+	for _, fn := range c.W.FuncsOf(PkgSet{pt.pkg.Types: true}) {
+		if fn.Signature.Recv() == nil || !isNamed(fn.Signature.Recv().Type(), "jparse", "parser") || len(fn.Blocks) != 1 {
+			continue
+		}
+		for _, ins := range instrsIn(fn) {
+			ret, ok := ins.(*ssa.Return)
+			if !ok || len(ret.Results) != 1 {
+				continue
+			}
+			call, ok := ret.Results[0].(*ssa.Call)
+			if !ok {
+				continue
+			}
+			if ld, ok := call.Call.Value.(*ssa.UnOp); ok {
+				if fa, ok := ld.X.(*ssa.FieldAddr); ok && isNamed(fa.X.Type(), "jparse", "parser") {
+					stt := fa.X.Type().Underlying().(*types.Pointer).Elem().Underlying().(*types.Struct)
+					if pt.bpNames[stt.Field(fa.Field).Name()] {
+						pt.bpNames[fn.Name()] = true
+					}
+				}
+			}
+		}
 	}
 }
 
 // isBpCall: expr is p.bp(X) / p.lookupBp(X); returns X.
-func isBpCall(e ast.Expr) (ast.Expr, bool) {
+func (pt *prattTables) isBpCall(e ast.Expr) (ast.Expr, bool) {
 	call, ok := e.(*ast.CallExpr)
 	if !ok || len(call.Args) != 1 {
 		return nil, false
 	}
 	sel, ok := call.Fun.(*ast.SelectorExpr)
-	if !ok || (sel.Sel.Name != "bp" && sel.Sel.Name != "lookupBp") {
+	if !ok || !pt.bpNames[sel.Sel.Name] {
 		return nil, false
 	}
 	return call.Args[0], true
@@ -530,7 +584,7 @@ func (pt *prattTables) checkLoop(c *Ctx, r *Result, rule string) {
 			return true
 		}
 		lhs, isID := be.X.(*ast.Ident)
-		arg, isBp := isBpCall(be.Y)
+		arg, isBp := pt.isBpCall(be.Y)
 		if !isID || pt.pkg.TypesInfo.Uses[lhs] != rbpObj || !isBp {
 			o.Verdict, o.Reason = Finding, "the loop condition is not `rbp OP bp(token)`"
 			return true
@@ -547,20 +601,37 @@ func (pt *prattTables) checkLoop(c *Ctx, r *Result, rule string) {
 		// the advance inside the loop allows a regex (an operand follows an infix token)
 		adv := Obligation{Rule: rule, Key: "parseExpression:advance-after-infix", Fn: "jparse.parseExpression", Pos: c.W.Pos(fs.Pos()), Nontrivial: true}
 		adv.Verdict, adv.Reason = Undecided, "no p.advance(...) in the loop body"
-		ast.Inspect(fs.Body, func(m ast.Node) bool {
-			call, ok := m.(*ast.CallExpr)
-			if !ok {
-				return true
-			}
-			if sel, ok := call.Fun.(*ast.SelectorExpr); ok && sel.Sel.Name == "advance" && len(call.Args) == 1 {
-				if id, ok := call.Args[0].(*ast.Ident); ok && id.Name == "true" {
-					adv.Verdict, adv.Reason = Discharged, "after an infix token the lexer is asked for an operand (regex allowed)"
-				} else {
-					adv.Verdict, adv.Reason = Finding, "after an infix token the lexer is not allowed to read a regex: `a ~> /re/` would lex / as division"
+		var scan func(body ast.Node, depth int)
+		scan = func(body ast.Node, depth int) {
+			ast.Inspect(body, func(m ast.Node) bool {
+				call, ok := m.(*ast.CallExpr)
+				if !ok {
+					return true
 				}
-			}
-			return true
-		})
+				sel, ok := call.Fun.(*ast.SelectorExpr)
+				if !ok {
+					return true
+				}
+				if sel.Sel.Name == "advance" && len(call.Args) == 1 {
+					if id, ok := call.Args[0].(*ast.Ident); ok && id.Name == "true" {
+						adv.Verdict, adv.Reason = Discharged, "after an infix token the lexer is asked for an operand (regex allowed)"
+					} else {
+						adv.Verdict, adv.Reason = Finding, "after an infix token the lexer is not allowed to read a regex: `a ~> /re/` would lex / as division"
+					}
+					return true
+				}
+				// the infix half of the loop body may live in a method of the parser
+				if depth < 1 {
+					if o := pt.pkg.TypesInfo.Uses[sel.Sel]; o != nil {
+						if d := pt.funcDecl[o]; d != nil && d != fd && d.Recv != nil && d.Body != nil {
+							scan(d.Body, depth+1)
+						}
+					}
+				}
+				return true
+			})
+		}
+		scan(fs.Body, 0)
 		r.Add(adv)
 		return true
 	})
@@ -600,11 +671,11 @@ func (pt *prattTables) classifyRbp(e ast.Expr, tokParam types.Object) string {
 		id, ok := sel.X.(*ast.Ident)
 		return ok && tokParam != nil && pt.pkg.TypesInfo.Uses[id] == tokParam
 	}
-	if arg, ok := isBpCall(e); ok && isTokType(arg) {
+	if arg, ok := pt.isBpCall(e); ok && isTokType(arg) {
 		return "bp"
 	}
 	if be, ok := e.(*ast.BinaryExpr); ok && be.Op == token.SUB {
-		if arg, ok := isBpCall(be.X); ok && isTokType(arg) {
+		if arg, ok := pt.isBpCall(be.X); ok && isTokType(arg) {
 			if bl, ok := be.Y.(*ast.BasicLit); ok && bl.Value == "1" {
 				return "bp-1"
 			}
